@@ -9,7 +9,8 @@
 (***************************************************************************)
 EXTENDS MPGen, Json
 
-CONSTANTS MaxN,        \* counts range over 1..MaxN
+CONSTANTS MaxN,        \* list lengths range over 1..MaxN
+          N1s, N2s, N3s,  \* candidate numbers of first-side / second-side / third-side agents
           NumInsts,    \* candidate -numinst values
           Perturb,     \* TRUE: also all single-fault perturbations
           Generate,    \* TRUE: run DrawList / FinishFile over all draws (keep MaxN tiny)
@@ -37,10 +38,13 @@ Legal(mp) ==
         X(fo)  == IF fo = "ties" THEN tq1 \X tq2 \X sk \X two
                   ELSE {<<NoVal, NoVal, NoVal, CHOOSE t \in two : t = 1 \/ two = {NoVal}>>}
         Q(fo, n2) == IF fo = "quotas"
-                     THEN {q \in Opt({0, 1, n2}) \X {n2, n2 + 1, 2 * n2} : q[1] = NoVal \/ q[1] <= q[2]}
+                     THEN {q \in Opt({0, 1, n2} \cup (IF Rich THEN {n2 + 2} ELSE {}))
+                                \X ({n2, n2 + 1, 2 * n2} \cup (IF Rich THEN {n2 + 2, 2 * n2 - 1} ELSE {})) :
+                             q[1] = NoVal \/ q[1] <= q[2]}
                      ELSE {<<NoVal, n2 + 1>>}
         L3(fo, n3) == IF fo = "lecq"
-                      THEN {t \in Opt({0, 1}) \X Opt({0, 1, n3}) \X {1, n3, n3 + 2} :
+                      THEN {t \in Opt({0, 1} \cup (IF Rich THEN {n3 + 1} ELSE {})) \X Opt({0, 1, n3} \cup (IF Rich THEN {n3 + 1} ELSE {}))
+                                   \X ({1, n3, n3 + 2} \cup (IF Rich THEN {2 * n3 + 1} ELSE {})) :
                               /\ (t[2] # NoVal => t[2] <= t[3])
                               /\ (IF t[1] = NoVal THEN 0 ELSE t[1]) <= (IF t[2] = NoVal THEN 0 ELSE t[2])}
                       ELSE {<<NoVal, NoVal, n3 + 1>>}
@@ -58,7 +62,7 @@ Legal(mp) ==
             : pm \in {pm \in (1 .. MaxN) \X (1 .. MaxN) : pm[1] <= pm[2] /\ pm[2] <= (IF mp = "sm" THEN n1 ELSE n2)},
               x \in X(fo), q \in Q(fo, n2), lq3 \in L3(fo, n3) }
           : fo \in Focus}
-          : n3 \in (IF mp = "spa" THEN 1 .. MaxN ELSE {1})} : n2 \in (IF mp = "sm" THEN {1} ELSE 1 .. MaxN)} : n1 \in 1 .. MaxN}
+          : n3 \in (IF mp = "spa" THEN N3s ELSE {1})} : n2 \in (IF mp = "sm" THEN {1} ELSE N2s)} : n1 \in N1s}
 
 (* single-fault perturbations of a legal vector *)
 Viol(mp) == {"numinst0", "n1_0", "pmin0", "pmin>pmax", "pmax>n2", "t1neg", "t1big"}
@@ -67,6 +71,7 @@ Viol(mp) == {"numinst0", "n1_0", "pmin0", "pmin>pmax", "pmax>n2", "t1neg", "t1bi
             \cup (IF mp = "spa" THEN {"n3_0", "luq0", "ltneg", "lt>luq", "llq>lt", "llqneg"} ELSE {})
 Perts(mp) == {<<"none", "">>}
              \cup (IF Perturb THEN {<<"drop", o>> : o \in Required(mp)} \cup {<<"add", o>> : o \in Inapplicable(mp)}
+                                   \cup {<<"add0", o>> : o \in Inapplicable(mp) \ {"twopl", "n2", "n3", "uq", "luq"}}
                                    \cup {<<"viol", w>> : w \in Viol(mp)}
                    ELSE {})
 AddValue(o) == CASE o \in {"n2", "n3"} -> 2 [] o = "twopl" -> 1 [] o = "t2" -> 2 [] o = "uq" -> 5 [] OTHER -> 1
@@ -77,6 +82,7 @@ Apply(a, pt) ==
     CASE pt[1] = "none" -> a
       [] pt[1] = "drop" -> [a EXCEPT !.g = @ \ {pt[2]}]
       [] pt[1] = "add"  -> set(pt[2], AddValue(pt[2]))
+      [] pt[1] = "add0" -> set(pt[2], 0)        \* an inapplicable option given its neutral value is still inapplicable
       [] pt[2] = "numinst0" -> [a EXCEPT !.numinst = 0]
       [] pt[2] = "n1_0" -> set("n1", 0)
       [] pt[2] = "n2_0" -> set("n2", 0)
